@@ -233,9 +233,13 @@ def search(res):
     #      covering the whole run, a cut-off run must equal the full-memory run
     for i in range(4):
         case = commuting_case(rng, "quick")
+        if case["n"] < 3:
+            case["n"] = 3
         n, dt = case["n"], case["dt"]
         full = dict(case, dkmax=None, tau=None)
-        for (kc, tau) in [(1, (n + 1) * dt), (max(1, n - 2), n * dt), (1, np.inf)]:
+        # the last entry covers the run only just: (dkmax+1)*dt + tau >= n*dt > dkmax*dt + tau
+        for (kc, tau) in [(1, (n + 1) * dt), (max(1, n - 2), n * dt), (1, np.inf),
+                          (1, (n - 2) * dt + 0.25 * dt)]:
             cut = dict(case, dkmax=kc, tau=tau)
             a = cases.make_tempo(full, epsrel=1e-11).compute(cases.end_time(case), progress_type="silent").states
             b = cases.make_tempo(cut, epsrel=1e-11).compute(cases.end_time(case), progress_type="silent").states
